@@ -76,6 +76,13 @@ def programs(tier):
                                 add(("chain", mid, ("leaf", other)))
                         except IllTyped:
                             pass
+        # Join objects applied directly (BinaryOperation.apply), common columns unresolved at the call
+        same = [n for n, (e, cs) in meprogs.LEAVES.items() if e == meprogs.LEAVES[st[1]][0] and n != st[1]]
+        for other in same:
+            for pred in (None, ("lt", ("ref", "a"), ("ref", "a"))):
+                add(("join", st, ("leaf", other), pred, "apply"))
+                add(("join", ("leaf", other), ("sel", st, ("gt", ("ref", "a"), ("lit", "$k2"))), pred, "apply"))
+                add(("dedup", ("join", ("proj", st, ("a",)), ("leaf", other), pred, "apply")))
         # two transfers: start -> transfer -> one operation -> transfer (back or onwards) -> final operation with every option set
         for dest in meprogs.ENGINES:
             x = ("xfer", st, dest)
